@@ -295,9 +295,27 @@ class SymInt:
     def __bool__(self):
         return bool(self != 0)
 
+    def _wide(self):
+        """more than 2^16 candidate values: by interval *and* by the number of input bits the term depends on"""
+        if self.hi - self.lo <= 1 << 16:
+            return False
+        bits, seen, stack = 0, set(), [self.t]
+        while stack and bits <= 16:
+            x = stack.pop()
+            i = x.get_id()
+            if i in seen:
+                continue
+            seen.add(i)
+            if z3.is_const(x):
+                if x.decl().kind() == z3.Z3_OP_UNINTERPRETED:
+                    bits += x.size() if z3.is_bv(x) else 1
+            else:
+                stack.extend(x.children())
+        return bits > 16
+
     def __index__(self):
         # reached only when *native* code asks for a machine integer: enumerating a wide range is never what a check wants
-        if self.hi - self.lo > 1 << 16:
+        if self._wide():
             from .engine import Unsupported
 
             raise Unsupported("native code needs the concrete value of a symbolic int with more than 2^16 possible values (no model for this call)")
@@ -306,7 +324,7 @@ class SymInt:
     __int__ = __index__
 
     def __hash__(self):
-        if self.hi - self.lo > 1 << 16:
+        if self._wide():
             from .engine import Unsupported
 
             raise Unsupported("a symbolic int with more than 2^16 possible values is used as a hash key")
@@ -387,27 +405,38 @@ _STRUCT_CODES = {"b": (1, True), "B": (1, False), "h": (2, True), "H": (2, False
 
 
 def _parse_struct_fmt(fmt):
-    """-> (byteorder, [(size, signed), ...]) for standard-size integer formats, else None"""
+    """-> (byteorder, [field, ...]) for standard-size formats; field = ("int", size, signed) | ("bytes", n) | ("pad", n) | ("bool",); else None"""
     import re as _re
 
-    if not fmt or fmt[0] not in "<>!=":
-        if len(fmt) >= 1 and all(ch in "bB" or ch.isdigit() for ch in fmt):
-            order, body = "little", fmt
-        else:
-            return None
-    else:
-        order, body = ("little" if fmt[0] in "<" else "big"), fmt[1:]
+    fmt = fmt.replace(" ", "")
+    if fmt and fmt[0] in "<>!=":
+        order, body = ("little" if fmt[0] == "<" else "big"), fmt[1:]
         if fmt[0] == "=":
             import sys as _sys
 
             order = _sys.byteorder
-    fields = []
-    for cnt, code in _re.findall(r"(\d*)([a-zA-Z?])", body):
-        if code not in _STRUCT_CODES:
-            return None
-        fields += [_STRUCT_CODES[code]] * (int(cnt) if cnt else 1)
-    if "".join(f"{c}{k}" for c, k in _re.findall(r"(\d*)([a-zA-Z?])", body)) != body.replace(" ", ""):
+    elif fmt and all(ch in "bBsxc?" or ch.isdigit() for ch in fmt):
+        order, body = "little", fmt  # single-byte items only: native alignment does not matter
+    else:
         return None
+    toks = _re.findall(r"(\d*)([a-zA-Z?])", body)
+    if "".join(c + k for c, k in toks) != body:
+        return None
+    fields = []
+    for cnt, code in toks:
+        n = int(cnt) if cnt else 1
+        if code in _STRUCT_CODES:
+            fields += [("int",) + _STRUCT_CODES[code]] * n
+        elif code == "s":
+            fields.append(("bytes", n))
+        elif code == "x":
+            fields.append(("pad", n))
+        elif code == "?":
+            fields += [("bool",)] * n
+        elif code == "c":
+            fields += [("bytes", 1)] * n
+        else:
+            return None
     return order, fields
 
 
@@ -420,15 +449,32 @@ def struct_pack(fmt, *vals):
 
         raise Unsupported(f"struct.pack({fmt!r}) with symbolic arguments")
     order, fields = parsed
-    if len(fields) != len(vals):
-        raise struct.error(f"pack expected {len(fields)} items for packing (got {len(vals)})")
-    out = []
-    for (size, signed), v in zip(fields, vals):
-        lo, hi = (-(1 << (8 * size - 1)), (1 << (8 * size - 1)) - 1) if signed else (0, (1 << (8 * size)) - 1)
-        ok = (v >= lo) & (v <= hi) if isinstance(v, SymInt) else (lo <= v <= hi)
-        if not (ok if isinstance(ok, bool) else bool(ok)):
-            raise struct.error("argument out of range")
-        out.extend(seq_items(SymInt.lift(v).to_bytes(size, order, signed=signed) if isinstance(v, SymInt) else v.to_bytes(size, order, signed=signed)))
+    nvals = sum(1 for f in fields if f[0] != "pad")
+    if nvals != len(vals):
+        raise struct.error(f"pack expected {nvals} items for packing (got {len(vals)})")
+    out, vi = [], 0
+    for f in fields:
+        if f[0] == "pad":
+            out.extend([0] * f[1])
+            continue
+        v = vals[vi]
+        vi += 1
+        if f[0] == "bytes":
+            if not is_byteslike(v):
+                raise struct.error("argument for 's' must be a bytes object")
+            items = seq_items(v)[: f[1]]
+            out.extend(items + [0] * (f[1] - len(items)))
+        elif f[0] == "bool":
+            out.append(SymInt.lift(v != 0) if isinstance(v, (SymInt, SymBool)) else int(bool(v)))
+        else:
+            _, size, signed = f
+            if not isinstance(v, (int, SymInt)):
+                raise struct.error("required argument is not an integer")
+            lo, hi = (-(1 << (8 * size - 1)), (1 << (8 * size - 1)) - 1) if signed else (0, (1 << (8 * size)) - 1)
+            ok = (v >= lo) & (v <= hi) if isinstance(v, SymInt) else (lo <= v <= hi)
+            if not (ok if isinstance(ok, bool) else bool(ok)):
+                raise struct.error("argument out of range")
+            out.extend(seq_items(v.to_bytes(size, order, signed=signed)))
     return SymBytes(out).norm()
 
 
@@ -442,12 +488,23 @@ def struct_unpack(fmt, buf):
         raise Unsupported(f"struct.unpack({fmt!r}) on a symbolic buffer")
     order, fields = parsed
     items = seq_items(buf)
-    if len(items) != sum(sz for sz, _ in fields):
-        raise struct.error(f"unpack requires a buffer of {sum(sz for sz, _ in fields)} bytes")
+    total = sum((f[1] if f[0] != "bool" else 1) for f in fields)
+    if len(items) != total:
+        raise struct.error(f"unpack requires a buffer of {total} bytes")
     out, p = [], 0
-    for size, signed in fields:
-        out.append(int_from_bytes(SymBytes(items[p : p + size]), order, signed=signed))
-        p += size
+    for f in fields:
+        if f[0] == "pad":
+            p += f[1]
+        elif f[0] == "bytes":
+            out.append(SymBytes(items[p : p + f[1]]).norm())
+            p += f[1]
+        elif f[0] == "bool":
+            out.append(items[p] != 0)
+            p += 1
+        else:
+            _, size, signed = f
+            out.append(int_from_bytes(SymBytes(items[p : p + size]), order, signed=signed))
+            p += size
     return tuple(out)
 
 
@@ -977,7 +1034,7 @@ class SymStr:
         e = _eng()
         out = []
         for p in self.parts:
-            if not isinstance(p, str) and not isinstance(p[1], int) and p[1].hi - p[1].lo > 1 << 16:
+            if not isinstance(p, str) and not isinstance(p[1], int) and p[1]._wide():
                 from .engine import Unsupported
 
                 raise Unsupported("the concrete text of a structured string with a wide symbolic field is needed (no model for this use)")
